@@ -165,8 +165,14 @@ def texts_of(w, acc):
     return acc
 
 
-NUM_FNS = [b"pf64", b"pf32", b"bf", b"bfint", b"nf", b"ratf", b"unix"] + [b"f2i:" + k.encode() for k in INTS]
+NUM_FNS = [b"pf64", b"pf32", b"bf", b"bfexp", b"bfint", b"nf", b"ratf", b"unix"] + [b"f2i:" + k.encode() for k in INTS]
 STR_FNS = [b"pf64", b"pf32", b"pc64", b"pc128", b"bf", b"rat", b"ptime", b"uuid"]
+
+
+def huge_exponent(txt):
+    import re
+    m = re.search(rb"[eEpP]([+-]?[0-9]+)$", txt)
+    return bool(m) and abs(int(m.group(1))) > 25000
 
 
 def oracle_queries(w):
@@ -174,11 +180,15 @@ def oracle_queries(w):
     for kind, txt in texts_of(w, set()):
         if kind == "num":
             for f in NUM_FNS:
+                if f == b"bfint" and huge_exponent(txt):
+                    continue      # never prefetched: the integer of "1e100000000" has 332 million bits (the model asks bfexp first)
                 qs.add((f, txt))
         elif kind == "idx":
             qs.add((b"pf64", txt)); qs.add((b"pf32", txt))
         elif kind == "str":
             for f in STR_FNS:
+                if f == b"rat" and huge_exponent(txt):
+                    continue      # megabytes of digits; the model refuses the text before asking
                 qs.add((f, txt))
         elif kind == "time":
             qs.add((b"tstr", txt))
@@ -227,13 +237,18 @@ def scalar_tokens(tier):
     dbl = ["0", "-0", "1", "1.5", "-1.5", "2.0", "0.0", "0.1", "1e3", "1E3", "255", "256.0", "300.5", "-1", "-129",
            "1e10", "2147483649", "4294967297", "9.223372036854776e18", "1e19", "1.8446744073709552e19", "1e100",
            "-1e100", "1e-320", "1e400", "3.4028235e38", "3.5e38", "0.30000000000000004", "123456789012345678",
-           "1.7976931348623157e308", "5e-324", ".5", "5.", "+1.5"]
+           "1.7976931348623157e308", "5e-324", ".5", "5.", "+1.5",
+           # around maxBigIntBits (2^65536 ~ 2.0e19728): the last accepted and the first refused for *big.Int
+           "1e19728", "2e19728", "3e19728", "1e19729", "-1e19729", "1e1000000"]
     toks += [("d", S(x)) for x in dbl]
     toks += [("u", S(x)) for x in ["a", "5", "0", "1", "t", "T", "-", "é", "中", " "]]
     strs = ["", "a", "5", "12", "-7", "+7", "300", "1.5", "true", "false", "TRUE", "abc", "é中😀", "18446744073709551616",
             "-129", "128", "1e3", "NaN", "inf", "-Inf", "0x10", "1_000", " 5", "(1+2i)", "1+2i", "3i", "2020-01-02 03:04:05",
             "2020-01-02T03:04:05Z", "15:04:05", "1/3", "-2/4", "1e400", GUID.decode(), "{" + GUID.decode() + "}",
-            GUID.decode().upper(), "9223372036854775808", "65536", "99999999999999999999.5"]
+            GUID.decode().upper(), "9223372036854775808", "65536", "99999999999999999999.5",
+            # around maxTextExponent (16384) for *big.Rat: decimal, signed, binary and hexadecimal exponents
+            "1e16384", "1e16385", "-3e-16384", "1e-16385", "1E+16385", "1p16385", "0x1p16385", "0x1e5", "0X1P-16385",
+            "1e99999999999999999999", "1/3e16385", "1e16385/2", "2e", "e5", "1e1000000"]
     toks += [("s", S(x)) for x in strs]
     toks += [("b", S(x)) for x in [b"", b"a", b"hello", b"\x00\xff", bytes(range(16)), GUID, b"12"]]
     toks += [("g", GUID), ("g", GUID.upper())]
